@@ -270,3 +270,54 @@ Theorem T17_13_closed_form_valid :
     exists v, comp_sum [GRange x lo hi (ANum 1)] rho elt = Some v /\ (v == aeval rho out)%Q.
 Proof. exact closed_form_valid. Qed.
 Print Assumptions T17_13_closed_form_valid.
+
+(* ---- chained comparisons as operands (round 5, seed C17-d) ---- *)
+Require Import Pyrefact.ChainProofs.
+
+(* T17.14a a chained comparison `t0 op1 t1 op2 t2 ..` (BoundModel.OChain; every middle term evaluated once)
+   has the truth value of the conjunction of its links, for every valuation. *)
+Theorem T17_14a_chain_is_conjunction :
+  forall rho sigma t0 ls, eval rho sigma (OChain t0 ls) = eval_list rho sigma true (links_of t0 ls).
+Proof. exact chain_is_conjunction. Qed.
+Print Assumptions T17_14a_chain_is_conjunction.
+
+(* T17.14b the rule as it is (a chain is an opaque operand: no bound is read from it, it is kept or dropped as a
+   whole) preserves the value / truth value of operand lists that contain chains. *)
+Theorem T17_14b_chain_operand_opaque_sound :
+  forall ctx isand pre t0 ls post rho tau,
+    let vs := pre ++ OChain t0 ls :: post in
+    match simplify_ctx ctx isand vs with
+    | RConst b =>
+        if ctx then truthy (opval rho tau (OBool isand vs)) = b
+        else opval rho tau (OBool isand vs) = VB b
+    | RValues vs' =>
+        if ctx then truthy (opval rho tau (OBool isand vs')) = truthy (opval rho tau (OBool isand vs))
+        else opval rho tau (OBool isand vs') = opval rho tau (OBool isand vs)
+    | RNone => True
+    end.
+Proof. exact chain_operand_opaque_sound. Qed.
+Print Assumptions T17_14b_chain_operand_opaque_sound.
+
+(* T17.14c letting the links of chains take part in the bound analysis is sound for an `and` node ... *)
+Theorem T17_14c_links_and_sound :
+  forall vs rho sigma,
+    match simplify_links true vs with
+    | RConst b => eval_list rho sigma true vs = b
+    | RValues ws =>
+        exists vs', ws = map (with_links true) vs' /\ incl vs' vs /\
+                    eval_list rho sigma true vs' = eval_list rho sigma true vs
+    | RNone => True
+    end.
+Proof. exact links_and_sound. Qed.
+Print Assumptions T17_14c_links_and_sound.
+
+(* R17.14 ... and wrong for an `or` node: `0 < x < 10 or y > 3` -> True, false at x = y = -40. *)
+Theorem R17_14_links_or_refuted :
+  exists vs rho sigma b, simplify_links false vs = RConst b /\ eval_list rho sigma false vs <> b.
+Proof. exact links_or_refuted. Qed.
+Print Assumptions R17_14_links_or_refuted.
+
+Theorem R17_14b_with_links_or_refuted :
+  exists rho sigma o, eval rho sigma (with_links false o) <> eval rho sigma o.
+Proof. exact with_links_or_refuted. Qed.
+Print Assumptions R17_14b_with_links_or_refuted.
